@@ -5,8 +5,9 @@ package sign
 // Contracts for the verifier in /verif (comment-only).
 
 /*@
+// (ghost bookkeeping: how often a signature was produced, and over which message)
 func Signer.Sign
-  modifies signCalls
-  assumes signCalls == old(signCalls) + 1
+  modifies signCalls, lastSigned
+  assumes signCalls == old(signCalls) + 1 && lastSigned == bytes(message)
 func Signer.Verify
 @*/
